@@ -5,6 +5,8 @@ import (
 	"encoding/json"
 	"fmt"
 	"io"
+	"os"
+	"strings"
 	"testing"
 
 	"github.com/tsenart/vegeta/v12/internal/zzverif/vgen"
@@ -19,6 +21,10 @@ type c08Case struct {
 	Results []vegeta.Result
 	Codec   string
 	Chunks  []int // chunk sizes the reader delivers, cycled; 0 = a (0, nil) read
+	// Source != "": the stream sits in a seekable source (bytes | strings | file) behind Prefix,
+	// which the caller has already consumed when detection starts (a header, an earlier stream)
+	Source string `json:",omitempty"`
+	Prefix []byte `json:",omitempty"`
 }
 
 func runC08Detect(c c08Case) error {
@@ -27,7 +33,34 @@ func runC08Detect(c c08Case) error {
 	if err != nil {
 		return err
 	}
-	dec := vegeta.DecoderFor(&vgen.ChunkReader{Data: data, Sizes: c.Chunks})
+	var src io.Reader = &vgen.ChunkReader{Data: data, Sizes: c.Chunks}
+	if c.Source != "" {
+		all := append(append([]byte(nil), c.Prefix...), data...)
+		switch c.Source {
+		case "bytes":
+			src = bytes.NewReader(all)
+		case "strings":
+			src = strings.NewReader(string(all))
+		default:
+			f, err := os.CreateTemp("", "c08-*.bin")
+			if err != nil {
+				return nil
+			}
+			defer os.Remove(f.Name())
+			defer f.Close()
+			if _, err := f.Write(all); err != nil {
+				return nil
+			}
+			if _, err := f.Seek(0, io.SeekStart); err != nil {
+				return nil
+			}
+			src = f
+		}
+		if n, err := io.CopyN(io.Discard, src, int64(len(c.Prefix))); err != nil || n != int64(len(c.Prefix)) {
+			return fmt.Errorf("harness: could not consume the prefix: %v", err)
+		}
+	}
+	dec := vegeta.DecoderFor(src)
 	if dec == nil {
 		return fmt.Errorf("DecoderFor returned no decoder for a %s stream of %d records (%d bytes, chunks %v)", c.Codec, len(c.Results), len(data), c.Chunks)
 	}
@@ -75,6 +108,17 @@ func TestC08Detect(t *testing.T) {
 			c.Results[0].Body = bytes.Repeat([]byte{0xA7, 'x', '"', ','}, n/4)
 		}
 		c.Chunks = c08Chunks(t)
+		if rapid.IntRange(0, 4).Draw(t, "seekable") == 0 {
+			c.Source = rapid.SampledFrom([]string{"bytes", "strings", "file"}).Draw(t, "source")
+			switch rapid.IntRange(0, 2).Draw(t, "prefixkind") {
+			case 0: // nothing before the stream
+			case 1:
+				c.Prefix = rapid.SliceOfN(rapid.Byte(), 1, 600).Draw(t, "prefix")
+			default: // an earlier result stream, possibly in another encoding
+				pre := vgen.Results(t, "pre", 1, 4, vgen.ResultOpts{})
+				c.Prefix, _, _ = vgen.EncodeAll(vgen.CodecByName(rapid.SampledFrom([]string{"gob", "csv", "json"}).Draw(t, "precodec")), pre)
+			}
+		}
 		size := 0
 		for _, r := range c.Results {
 			size += len(r.Body) + 100
@@ -88,6 +132,9 @@ func TestC08Detect(t *testing.T) {
 		nt := size > 8192 && minChunk < size/len(c.Results)
 		sig, _ := json.Marshal(c)
 		labels := []string{c.Codec}
+		if c.Source != "" {
+			labels = append(labels, fmt.Sprintf("seekable-source,consumed-prefix:%v", len(c.Prefix) > 0))
+		}
 		if len(c.Results[0].Body) >= 65536 {
 			labels = append(labels, "first-record>=64KiB")
 		}
